@@ -309,3 +309,29 @@ CHECKS["C08"] = dict(
     level_text="exploration: for every generated version type the catalogue of framing mutations is applied exhaustively per encoded table (all duplicate positions, all entries, all size deltas) and each mutated table is decided exactly by the reference decoder.",
     level_note="trusts ref/refcodec.h for the framing rules; nested tables only receive length-preserving mutations",
     assumptions=[])
+
+
+# ------------------------------------------------------------------ fung engine (C09)
+def gen_fung(prop, tier, seed):
+    import funggen
+    s = seed if tier == "thorough" else 0
+    d = os.path.join(BUILD, "gen", "fung-%s-%d" % (tier, s))
+    srcs = funggen.generate(d, s, 900 if tier == "thorough" else 220)
+    return d, srcs
+
+
+ENGINE_KIND["fung"] = "C++ harness (ASan+UBSan): generated type pairs; compile-time IsFungible / Protocol facts emitted as constants; run-time cross decode and re-encode of every trait-true pair"
+CHECKS["C09"] = dict(
+    engine="fung", flavour="asan", gen=gen_fung, sources=["engines/fung/main.cpp"], flags=["-DVF_OPS_FEW"], level="exploration", programs_counter="programs_pairs",
+    rule=("program = ordered type pair (A, B): A from the curated corpus and a bounded-depth grammar walk, B derived by (i) a documented fungibility-preserving rewrite (vector/array/logical buffer, sequence/tuple for non-integral "
+          "elements, pair/tuple, map/unordered_map, wrapper/wrapped, element-wise under Optional/Result/Variant, member-wise structures, entry-wise tables) — the trait must be true — or (ii) a near-miss rewrite (integer "
+          "width/signedness, enum/underlying, integral element vs wrapped integral element, array length, tuple arity, table id/hash/deleted marker, Optional<T>/T, map/vector<pair>, string/vector<char>, variant order, "
+          "dropped member) — the trait is only observed. Constants emitted per pair: IsFungible<A,B>, <B,A>, <A,A>, <B,B>, on signatures, and whether Protocol<A>::Write/Read admits B. For every pair where the trait "
+          "is true, values of A (and of B) whose element counts fit the other type are encoded, decoded as the other type (value tree must be equal, all bytes consumed) and re-encoded (same bytes; modulo entry order when "
+          "an unordered_map is involved). distinct = hash(pair, bytes, direction)."),
+    floor={"quick": 1000, "thorough": 20000},
+    require_counters=["c09_pairs", "c09_documented_pairs", "c09_near_miss_pairs", "c09_pairs_trait_true", "c09_pairs_trait_false", "c09_cross_decodes", "c09_trait_true_pairs_wire_tested"],
+    technique="compile-time trait values emitted as constants + run-time cross-decode/re-encode oracle over generated type pairs, under ASan/UBSan",
+    level_text="exploration over generated programs: a few hundred to a thousand generated type pairs per run; every trait-true pair is wire-tested in both directions on generated values. The relation ranges over an unbounded set of pairs; what is decided is the generated sample.",
+    level_note="re-encoded bytes are compared modulo entry order when an unordered_map is involved (its iteration order is the container's own); values whose element counts do not fit the other type are skipped as the property states",
+    assumptions=[])
